@@ -475,7 +475,7 @@ def check_program(prog, acc):
 # contexts copied while a contract / an operation is in progress and used after it has finished
 
 REENTRIES = [None, ("K.inv", ["self.m"]), ("m.pre", ["self.m"]), ("f.pre", ["f"]), ("f.post", ["f", "self.m"]), ("g.post", ["g"]), ("r.pre", ["r"])]
-LATER_TOPS = ["self.m", "f", "g", "r", "K()"]
+LATER_TOPS = ["self.m", "f", "g", "r", "K()", "kept.m"]
 
 
 def copied_context_cases():
